@@ -480,6 +480,30 @@ class Reader:
                         out.append(r)
         return out
 
+    def readings_ci(self, s: str):
+        """Case-insensitive readings: the prefix is matched exactly (as written), the unit part and nothing else
+        is compared after lower-casing (documented: 'accepts unit spellings that differ ... in letter case')."""
+        if not hasattr(self, "_ci"):
+            self._ci = {}
+            for sp, c in self.spell.items():
+                self._ci.setdefault(sp.lower(), set()).add(c)
+        out = []
+        for suffix in ("", "s"):
+            if suffix and not s.endswith("s"):
+                continue
+            stem_all = s[: len(s) - len(suffix)] if suffix else s
+            for p in [""] + list(self.pspell):
+                if not stem_all.startswith(p):
+                    continue
+                stem = stem_all[len(p):]
+                if suffix and len(stem) == 1:
+                    continue
+                for c in sorted(self._ci.get(stem.lower(), ())):
+                    r = (self.pspell[p] if p else "", c)
+                    if r not in out:
+                        out.append(r)
+        return out
+
     def lookup(self, s: str):
         """(prefix value, canonical unit) for a reference inside a definition."""
         if s in self.spell:
